@@ -22,6 +22,8 @@ pub type Co = Coroutine<Option<V>, V, FiberEnd>;
 pub enum FiberEnd {
     Returned(V),
     Died(Box<Report>),
+    /// the run was aborted by an uncaught error in a fiber this one was calling
+    Aborted(Box<Report>),
     Discard(&'static str),
 }
 
@@ -57,11 +59,15 @@ pub struct Report {
     /// rendered "Unhandled X: ctx" text (may contain OPAQUE)
     pub head: String,
     pub trace: Vec<TraceEntry>,
+    /// the exception was already in flight when some finally block ran (its reported position is
+    /// not defined by the statement that raised it)
+    pub through_finally: bool,
 }
 
 pub struct Thrown {
     pub value: V,
     pub trace: Vec<TraceEntry>,
+    pub passed_finally: Cell<bool>,
 }
 
 pub enum Ctl {
@@ -392,6 +398,7 @@ impl Ctx {
         Ctl::Throw(Box::new(Thrown {
             value,
             trace: self.snapshot(),
+            passed_finally: Cell::new(false),
         }))
     }
 
@@ -436,6 +443,7 @@ impl Ctx {
                     class,
                     kind,
                     trace: t.trace.clone(),
+                    through_finally: t.passed_finally.get(),
                 }
             }
             other => Report {
@@ -443,6 +451,7 @@ impl Ctx {
                 kind: "RuntimeError",
                 head: format!("Unhandled exception: {}", display(other)),
                 trace: t.trace.clone(),
+                through_finally: t.passed_finally.get(),
             },
         }
     }
@@ -718,6 +727,9 @@ impl Ctx {
                 _ => {}
             }
             let pending_throw = matches!(r, Err(Ctl::Throw(_)));
+            if let Err(Ctl::Throw(t)) = &r {
+                t.passed_finally.set(true);
+            }
             if pending_throw {
                 sh.event("finally_pending_throw");
                 if declares_locals(f) {
@@ -942,9 +954,9 @@ impl Ctx {
                     V::Nil
                 }
             },
-            Expr::Compound(t, op, val, l) => match &**t {
+            Expr::Compound(t, op, val, l, lg) => match &**t {
                 Target::Var(n) => {
-                    let cur = self.lookup(env, &sc.module, n, self.ln_or(l))?;
+                    let cur = self.lookup(env, &sc.module, n, self.ln_or(lg))?;
                     let rhs = self.eval(val, env, sc)?;
                     let v = self.binary(*op, &cur, &rhs, self.ln_or(l))?;
                     self.assign_var(env, &sc.module, n, v.clone(), self.ln_or(l))?;
@@ -952,7 +964,7 @@ impl Ctx {
                 }
                 Target::Prop(o, n) => {
                     let ov = self.eval(o, env, sc)?;
-                    let cur = self.get_property(&ov, n, self.ln_or(l))?;
+                    let cur = self.get_property(&ov, n, self.ln_or(lg))?;
                     let rhs = self.eval(val, env, sc)?;
                     let v = self.binary(*op, &cur, &rhs, self.ln_or(l))?;
                     self.set_property(&ov, n, v.clone(), self.ln_or(l))?;
@@ -1428,6 +1440,9 @@ impl Ctx {
     pub fn fiber_call(&self, fo: &Rc<FiberObj>, args: Vec<V>, line: u32) -> R<V> {
         let sh = &self.sh;
         let st = fo.state.get();
+        if st == FiberSt::Limbo {
+            return Err(Ctl::Discard("fiber left inside a call chain by an aborted run"));
+        }
         // argument-count checks come first
         if st == FiberSt::New {
             if args.len() != fo.closure.def.params.len() {
@@ -1475,7 +1490,7 @@ impl Ctx {
                 match ctx.call_closure(&c, None, args, 0) {
                     Ok(v) => FiberEnd::Returned(v),
                     Err(Ctl::Throw(t)) => FiberEnd::Died(Box::new(ctx.report_of(&t))),
-                    Err(Ctl::Abort(r)) => FiberEnd::Died(r),
+                    Err(Ctl::Abort(r)) => FiberEnd::Aborted(r),
                     Err(Ctl::Discard(why)) => FiberEnd::Discard(why),
                     Err(Ctl::Return(v)) => FiberEnd::Returned(v),
                     Err(Ctl::Break) | Err(Ctl::Continue) => FiberEnd::Discard("break outside loop"),
@@ -1505,6 +1520,10 @@ impl Ctx {
                         Ok(v)
                     }
                     FiberEnd::Died(r) => Err(Ctl::Abort(r)),
+                    FiberEnd::Aborted(r) => {
+                        fo.state.set(FiberSt::Limbo);
+                        Err(Ctl::Abort(r))
+                    }
                     FiberEnd::Discard(w) => Err(Ctl::Discard(w)),
                 }
             }
@@ -1520,9 +1539,6 @@ impl Ctx {
             return self.fail(EK::Runtime, line);
         }
         self.set_line(line);
-        if self.sh.pending_finally.get() > 0 {
-            self.sh.event("E9");
-        }
         let v = args.into_iter().next().unwrap_or(V::Nil);
         let y = unsafe { &*self.yielder };
         let resumed = y.suspend(v);
